@@ -13,7 +13,7 @@ from .c14 import SWorld, gen_history, make_cfg, make_keys, make_values
 
 ID = "C15"
 LEVEL = "exploration"
-RUNS = {"quick": 1500, "thorough": 30000}
+RUNS = {"quick": 4000, "thorough": 50000}
 RULE = (
     "each run: a SparseMerkleTree (key size from {1,2,3,4,8,20,32}, blank or non-blank default) with a writer whose "
     "every set/delete appends (key, written value, returned hashes) to an ordered log, and 1-4 tracker clients created "
